@@ -377,11 +377,12 @@ static int run_cmd(char *op, int *a, int na) {
         CO_CSDO *c = COCSdoFind(&node, (uint8_t)a[0]); int s = na > 5 ? a[5] : 0; uint32_t n = (uint32_t)a[3];
         if (!c) { ITEM("err -1"); }
         else {
-            free(ubuf[s]); ubuf[s] = exact(n); ubuf_len[s] = n;
-            int base = na > 6 ? a[6] : 0; for (uint32_t i = 0; i < n; i++) ubuf[s][i] = IS("csdo_up") ? 0xCC : (uint8_t)(base + i);
-            CO_ERR e = IS("csdo_up") ? COCSdoRequestUpload(c, CO_DEV(a[1], a[2]), ubuf[s], n, csdo_cb, (uint32_t)a[4])
-                                     : COCSdoRequestDownload(c, CO_DEV(a[1], a[2]), ubuf[s], n, csdo_cb, (uint32_t)a[4]);
-            ITEM("err %d", (int)e);
+            uint8_t *nb = exact(n);
+            int base = na > 6 ? a[6] : 0; for (uint32_t i = 0; i < n; i++) nb[i] = IS("csdo_up") ? 0xCC : (uint8_t)(base + i);
+            CO_ERR e = IS("csdo_up") ? COCSdoRequestUpload(c, CO_DEV(a[1], a[2]), nb, n, csdo_cb, (uint32_t)a[4])
+                                     : COCSdoRequestDownload(c, CO_DEV(a[1], a[2]), nb, n, csdo_cb, (uint32_t)a[4]);
+            if (e) { free(nb); ITEM("err %d", (int)e); }      /* refused: the buffer of a running transfer stays */
+            else { free(ubuf[s]); ubuf[s] = nb; ubuf_len[s] = n; ITEM("ok"); }
         }
     }
     else if (IS("csdo_find")) { CO_CSDO *c = COCSdoFind(&node, (uint8_t)a[0]); ITEM("ret %d", c ? 0 : -1); }
